@@ -56,11 +56,7 @@ class StreamingDetector(ABC):
             ValueError: raised if X contains more than one observation after coercion
         """
         if isinstance(X, DataFrame):
-            # The first update with a dataframe will constrain subsequent input.
-            if self._input_cols is None:
-                self._input_cols = X.columns
-                self._input_col_dim = len(self._input_cols)
-            elif self._input_cols is not None:
+            if self._input_cols is not None:
                 if not X.columns.equals(self._input_cols):
                     raise ValueError(
                         "Columns of new data must match with columns of prior data."
@@ -72,11 +68,7 @@ class StreamingDetector(ABC):
             if len(ary.shape) <= 1:
                 # only one sample should be passed, so coerce column vectors (e.g. pd.Series) to rows
                 ary = ary.reshape(1, -1)
-            if self._input_col_dim is None:
-                # This allows starting with a dataframe, then later passing bare
-                # numpy arrays. For now, assume users are not miscreants.
-                self._input_col_dim = ary.shape[1]
-            elif self._input_col_dim is not None:
+            if self._input_col_dim is not None:
                 if ary.shape[1] != self._input_col_dim:
                     raise ValueError(
                         "Column-dimension of new data must match prior data."
@@ -86,6 +78,17 @@ class StreamingDetector(ABC):
             raise ValueError(
                 "Input for streaming detectors should contain only one observation."
             )
+
+        # Only input that passed validation may constrain subsequent input.
+        if isinstance(X, DataFrame):
+            # The first update with a dataframe will constrain subsequent input.
+            if self._input_cols is None:
+                self._input_cols = X.columns
+                self._input_col_dim = len(self._input_cols)
+        elif self._input_col_dim is None:
+            # This allows starting with a dataframe, then later passing bare
+            # numpy arrays. For now, assume users are not miscreants.
+            self._input_col_dim = ary.shape[1]
         return ary
 
     def _validate_y(self, y):
@@ -234,11 +237,7 @@ class BatchDetector(ABC):
             ValueError: if only one sample has been passed
         """
         if isinstance(X, DataFrame):
-            # The first update with a dataframe will constrain subsequent input.
-            if self._input_cols is None:
-                self._input_cols = X.columns
-                self._input_col_dim = len(self._input_cols)
-            elif self._input_cols is not None:
+            if self._input_cols is not None:
                 if not X.columns.equals(self._input_cols):
                     raise ValueError(
                         "Columns of new data must match with columns of prior data."
@@ -251,11 +250,7 @@ class BatchDetector(ABC):
                 # Batch size of 1 will break downstream - don't allow it.
                 # Attempts to coerce a row vector into a column vector.
                 ary = ary.reshape(-1, 1)
-            if self._input_col_dim is None:
-                # This allows starting with a dataframe, then later passing bare
-                # numpy arrays. For now, assume users are not miscreants.
-                self._input_col_dim = ary.shape[1]
-            elif self._input_col_dim is not None:
+            if self._input_col_dim is not None:
                 if ary.shape[1] != self._input_col_dim:
                     raise ValueError(
                         "Column-dimension of new data must match prior data."
@@ -264,6 +259,17 @@ class BatchDetector(ABC):
             raise ValueError(
                 "Input for batch detectors should contain more than one observation."
             )
+
+        # Only input that passed validation may constrain subsequent input.
+        if isinstance(X, DataFrame):
+            # The first update with a dataframe will constrain subsequent input.
+            if self._input_cols is None:
+                self._input_cols = X.columns
+                self._input_col_dim = len(self._input_cols)
+        elif self._input_col_dim is None:
+            # This allows starting with a dataframe, then later passing bare
+            # numpy arrays. For now, assume users are not miscreants.
+            self._input_col_dim = ary.shape[1]
         return ary
 
     def _validate_y(self, y):
